@@ -310,6 +310,21 @@ CORPUS = [
                           {"op": "set", "via": "d", "reg": 4, "c": {"t": "domain_axis", "size": 2}, "key": "domainaxis1", "axes": None},
                           dict(_arr("auxiliary_coordinate", [5], ["domainaxis0"], via="d"), reg=5),
                           {"op": "del", "via": "d", "reg": 3, "key": "auxiliarycoordinate0"}]),
+    # insert_dimension(constructs=True) leaves dimension coordinates (and their data axes) alone;
+    # the field can still be copied, subspaced, transposed
+    ("insert-dimension-constructs-dimcoord", [
+        _ax(5), _ax(3), {"op": "set_data", "shape": [5, 3], "axes": ["domainaxis0", "domainaxis1"]},
+        _arr("dimension_coordinate", [5], ["domainaxis0"], bnd=2),
+        _arr("dimension_coordinate", [3], ["domainaxis1"]),
+        _arr("auxiliary_coordinate", [3, 5], ["domainaxis1", "domainaxis0"]),
+        _arr("cell_measure", [5], ["domainaxis0"]),
+        {"op": "insert_dimension", "axis": None, "position": 1, "constructs": True, "inplace": True},
+        {"op": "copy"},
+        {"op": "insert_dimension", "axis": None, "position": -1, "constructs": True, "inplace": False},
+        {"op": "transpose", "axes": None, "constructs": True, "inplace": False},
+        {"op": "subspace", "idx": [["s", None, None, None], ["s", 0, 2, None], ["s", None, None, None], ["s", 1, 4, None]]},
+        {"op": "squeeze", "axes": None, "inplace": False},
+        {"op": "convert", "key": "auxiliarycoordinate0", "full_domain": True}]),
     # g = Field(source=f, copy=False): what is done to g's collection must not reach f
     ("sibling-field", [_ax(5), {"op": "set_data", "shape": [5], "axes": ["domainaxis0"]},
                        {"op": "insert_dimension", "axis": None, "position": 0, "constructs": False, "inplace": True},
